@@ -74,11 +74,12 @@ def run_case(case, method="collect"):
     """Execute one case for real. Returns (trace_record | None, info)."""
     d = scratch.scratch_dir() or scratch.enter_scratch()
     path = os.path.join(d, "f.csv")
-    runner.write_csv(path, case["records"])
+    runner.write_csv(path, case["records"], **(case.get("dialect") or {}))
     text = lang.render_csvpath(case["prog"], path, comment=comment_for(case["cfg"]))
     events = []
     nexts = case["cfg"]["nexts"]
-    p, cap = runner.new_csvpath()
+    dia = case.get("dialect") or {}
+    p, cap = runner.new_csvpath(delimiter=dia.get("delimiter", ","), quotechar=dia.get("quotechar", '"'))
     raised = ""
     lines = None
     orig = p._consider_line
@@ -125,20 +126,24 @@ def run_case(case, method="collect"):
             "match_count": p.match_count,
             "scan_count": p.scan_count,
             "printed": [txt(s) for s in cap.lines],
+            "checkLines": lines is not None and not raised,
+            "lines": [[txt(c) for c in l] for l in (lines or [])] if not raised else [],
+            "headers": [txt(h) for h in (p.headers or [])] if p.scanner is not None else [],
         }
     except OutOfModel as e:
         info["out_of_model"] = str(e)
         return None, info
     # python-side wiring check: the cells delivered are the cells of the records the events name
     cells_ok = True
+    nrec = len(case["records"])
     if lines is not None and not raised:
-        want = [case["records"][k] for k in ret_idx]
+        want = [case["records"][k] if k < nrec else None for k in ret_idx]
         if [list(l) for l in lines] != want:
             cells_ok = False
     if p.unmatched is not None and not raised:
-        want = [case["records"][k] for k in notret_idx]
+        want = [case["records"][k] if k < nrec else None for k in notret_idx]
         if [list(l) for l in p.unmatched] != want:
-            final["unmatched"] = ["mismatch"]
+            final["unmatched"] = [-1]
     info["cells_ok"] = cells_ok
     info["variables"] = repr(p.variables)[:400]
     info["returned"] = ret_idx
